@@ -3,6 +3,7 @@ package main
 // govc check <property>: the registered quick/thorough command.
 
 import (
+	"runtime/debug"
 	"encoding/json"
 	"flag"
 	"fmt"
@@ -120,8 +121,28 @@ func cmdCheck(args []string) int {
 		*tier = "quick"
 	}
 	seed, _ := strconv.Atoi(os.Getenv("VERIF_SEED"))
-	r := runCheck(checkOpts{prop: prop, tier: *tier, repo: *repo, verif: *verif, seed: seed, outDir: *out})
-	return r.Exit
+	exit := 2
+	func() {
+		// an internal error of the verifier while checking a tree must not look like "property holds":
+		// it is reported as an undecided check of this property (no failing input), with the stack
+		defer func() {
+			if rec := recover(); rec != nil {
+				dir := *out
+				if dir == "" {
+					dir = *verif
+				}
+				rp := filepath.Join(dir, "replays", prop, "internal_error.json")
+				os.MkdirAll(filepath.Dir(rp), 0o755)
+				b, _ := json.MarshalIndent(map[string]interface{}{"obligation": "govc internal error while generating or discharging the conditions of " + prop, "solver_reason": fmt.Sprint(rec), "stack": string(debug.Stack())}, "", " ")
+				os.WriteFile(rp, b, 0o644)
+				fmt.Printf("VIOLATION property=%s replay=%s no-failing-input-found\n  obligation: verifier internal error (the conditions of %s could not be decided): %v\n", prop, rp, prop, rec)
+				exit = 1
+			}
+		}()
+		r := runCheck(checkOpts{prop: prop, tier: *tier, repo: *repo, verif: *verif, seed: seed, outDir: *out})
+		exit = r.Exit
+	}()
+	return exit
 }
 
 func runCheck(o checkOpts) *CheckResult {
@@ -347,37 +368,45 @@ func runCheck(o checkOpts) *CheckResult {
 		if len(cs) == 0 || r.Err != "" {
 			continue
 		}
-		undecided := map[string]*Obligation{}
-		for _, ob := range r.Obls {
+		// obligations are matched by position: the copies are SSA-identical, so both lists are
+		// generated in the same order (names alone repeat across paths)
+		undecided := map[int]bool{}
+		for i, ob := range r.Obls {
 			if ob.Expect == "unsat" && (len(ob.Tags) == 0 || hasTag(ob.Tags, o.prop)) && !ob.ok() && ob.Res.Status != "sat" {
-				undecided[ob.Name] = ob
+				undecided[i] = true
 			}
 		}
 		if os.Getenv("GOVC_DEBUG") != "" && len(undecided) > 0 {
 			fmt.Fprintf(os.Stderr, "copies: %s has %d undecided obligations, %d identical copies\n", r.Key, len(undecided), len(cs))
 		}
-		for _, c := range cs {
-			if len(undecided) == 0 {
+		if len(undecided) > 6 {
+			// many undecided obligations in one function are a changed function, not solver luck
+			continue
+		}
+		for ci, c := range cs {
+			if len(undecided) == 0 || ci >= 2 {
 				break
 			}
 			r2 := e.verifyFunction(c.fn, c.fc)
-			if r2.Err != "" {
+			if r2.Err != "" || len(r2.Obls) != len(r.Obls) {
 				continue
 			}
 			var again []*Obligation
-			for _, ob := range r2.Obls {
-				if undecided[ob.Name] != nil {
-					again = append(again, ob)
+			var idx []int
+			for i := range r.Obls {
+				if undecided[i] && r2.Obls[i].Name == r.Obls[i].Name && r2.Obls[i].Expect == "unsat" {
+					again = append(again, r2.Obls[i])
+					idx = append(idx, i)
 				}
 			}
 			e.discharge(again)
-			for _, ob := range again {
+			for k, ob := range again {
 				if ob.ok() {
-					orig := undecided[ob.Name]
+					orig := r.Obls[idx[k]]
 					orig.Res = ob.Res
 					orig.Res.Solver += " (on the identical copy " + c.fn.String() + ")"
 					orig.All = append(orig.All, ob.All...)
-					delete(undecided, ob.Name)
+					delete(undecided, idx[k])
 				}
 			}
 		}
